@@ -31,6 +31,7 @@ SITE_MERGE = "mfront/src/TargetsDescription.cxx:mergeTargetsDescription"
 SITE_RUN = "mfront/src/MFront.cxx:analyseTargetsFile/writeTargetsDescription"
 
 SAFE = "abcdefghijklmnopqrstuvwxyzABCDEFGHIJKLMNOPQRSTUVWXYZ0123456789/._-+$(){} <>=:;,@#*%!&|^~?[]'\t"
+QUOTED = SAFE + '"""'          # list elements: the writer escapes double quotes
 HOSTILE = SAFE + '""\\\\\n'
 
 
@@ -102,9 +103,10 @@ class Gen:
 
     def lib(self, name, alpha, normal=True):
         r = self.r
+        raw = SAFE if alpha is QUOTED else alpha
         l = {"name": name, "type": r.choice("SSM"), "prefix": r.choice(["lib", "lib", "", "cyg"]),
              "suffix": r.choice(["so", "so", "dll", "dylib"]),
-             "install_path": r.choice(["", "", self.s(alpha)])}
+             "install_path": r.choice(["", "", self.s(raw)])}
         for f in VEC_FIELDS:
             l[f] = self.vec(alpha)
         if normal:
@@ -141,18 +143,22 @@ def is_normal(d, cpp, inc):
 
 
 def in_alphabet(d):
-    """every string is free of `"`, `\\` and newline (the alphabet of the round-trip theorem)"""
+    """the alphabet of the round trip: no backslash and no newline anywhere; no double quote in the strings
+    written without escaping (names, prefixes, suffixes, installation paths, target names)"""
     def ok(s):
-        return not any(c in s for c in '"\\\n')
+        return not any(c in s for c in '\\\n')
+
+    def okraw(s):
+        return ok(s) and '"' not in s
     for l in d["libs"]:
-        if not all(ok(l[k]) for k in ("name", "prefix", "suffix", "install_path")):
+        if not all(okraw(l[k]) for k in ("name", "prefix", "suffix", "install_path")):
             return False
         if not all(ok(x) for f in VEC_FIELDS for x in l[f]):
             return False
     if not all(ok(x) for x in d["headers"]):
         return False
     for n, t in d["targets"].items():
-        if not ok(n) or not all(ok(x) for f in TGT_FIELDS for x in t[f]):
+        if not okraw(n) or not all(ok(x) for f in TGT_FIELDS for x in t[f]):
             return False
     return True
 
@@ -207,6 +213,61 @@ def run_batch(ck, exe, lines, first=None, env=None):
                 out[i] = "NOT-RUN"
             break
     return out
+
+
+class Session:
+    """a harness / driver process kept alive for request-by-request interaction (restarted when it dies)"""
+
+    def __init__(self, ck, exe, first=None, env=None):
+        self.ck, self.exe, self.first, self.env = ck, exe, first, env
+        self.p = None
+        self.restarts = 0
+
+    def start(self):
+        e = dict(os.environ)
+        if self.env:
+            e.update(self.env)
+        self.err = open(self.ck.path("session_%s.err" % os.path.basename(self.exe)), "w+")
+        self.p = subprocess.Popen([self.exe], stdin=subprocess.PIPE, stdout=subprocess.PIPE, stderr=self.err,
+                                  text=True, bufsize=1, env=e, cwd=self.ck.work)
+        if self.first:
+            self.p.stdin.write(self.first + "\n")
+            self.p.stdin.flush()
+            self.p.stdout.readline()
+
+    def ask(self, line):
+        if self.p is None or self.p.poll() is not None:
+            self.start()
+        try:
+            self.p.stdin.write(line + "\n")
+            self.p.stdin.flush()
+            out = self.p.stdout.readline()
+        except (BrokenPipeError, OSError):
+            out = ""
+        if out.endswith("\n") and out.strip() != "HANG":
+            return out.rstrip("\n")
+        # the process died on this request
+        try:
+            self.p.wait(timeout=60)
+        except subprocess.TimeoutExpired:
+            self.p.kill()
+        rc = self.p.returncode
+        self.err.seek(0)
+        rep = [l for l in self.err.read().splitlines() if "ERROR" in l or "SUMMARY" in l or "runtime error" in l]
+        self.p = None
+        self.restarts += 1
+        if out.strip() == "HANG":
+            return "HANG"
+        return "CRASH rc=%s %s" % (rc, " | ".join(rep)[:400])
+
+    def close(self):
+        if self.p is not None and self.p.poll() is None:
+            try:
+                self.p.stdin.close()
+                self.p.wait(timeout=30)
+            except Exception:
+                self.p.kill()
+        self.p = None
 
 
 def build_harness(ck):
@@ -281,8 +342,7 @@ def run(ck):
     n_rt = 120 if ck.quick else 1500
     descs = []
     for i in range(n_rt):
-        hostile = i % 4 == 3
-        d = g.desc(HOSTILE if hostile else SAFE, normal=(i % 7 != 6))
+        d = g.desc(HOSTILE if i % 4 == 3 else (QUOTED if i % 4 == 2 else SAFE), normal=(i % 7 != 6))
         descs.append(d)
     wl = ["W " + enc_desc(d) for d in descs]
     wa, wm = both(wl)
@@ -426,6 +486,8 @@ def run(ck):
 
     # ---------------------------------------------------------------- (d) histories with crashes (real read/merge/write)
     n_h = 12 if ck.quick else 150
+    hs = Session(ck, harness, env=env)
+    ds = Session(ck, driver, first=kline)
     for h in range(n_h):
         stats["histories"] += 1
         registry = None            # file content, None = no file
@@ -440,8 +502,8 @@ def run(ck):
                 c = canon.setdefault(l["name"], (l["type"], l["prefix"], l["suffix"]))
                 l["type"], l["prefix"], l["suffix"] = c
             req = "U %s %s" % ("none" if registry is None else hx(registry), enc_desc(d))
-            a = run_batch(ck, harness, [req], env=env)[0]
-            m = run_batch(ck, driver, [req], first=kline)[0]
+            a = hs.ask(req)
+            m = ds.ask(req)
             stats["runs"] += 1
             rep = {"history": h, "run": run_i, "registry_before": registry, "new_description": d,
                    "request": req[:3000], "implementation": (a or "")[:1500], "model": (m or "")[:1500]}
@@ -459,7 +521,7 @@ def run(ck):
                 continue
             _, logged, newhex = a.split()
             new = unhx(newhex)
-            back = answer_desc(run_batch(ck, harness, ["R " + hx(new)], env=env)[0])
+            back = answer_desc(hs.ask("R " + hx(new)))
             if damaged:
                 outcome = "logged" if logged == "1" else "silent"
                 if logged != "1" and back[0] == "ok":
@@ -485,6 +547,9 @@ def run(ck):
                 stats["crashes_injected"] += 1
             else:
                 registry, damaged = new, False
+
+    hs.close()
+    ds.close()
 
     # ---------------------------------------------------------------- thorough: the real mfront binary
     mf = None
